@@ -84,6 +84,9 @@ func contract_UnmarshalOptions_unmarshal(o UnmarshalOptions, b []byte, m protore
 	modifiesAll()
 	// without AllowPartial, success means: reported initialized by the fast path, or vouched for by checkInitialized
 	ensures(imp(err == nil && !o.AllowPartial, out.Flags&protoiface.UnmarshalInitialized != 0 || specInitVerdict(err)))
+	// when the caller merges into existing content, the fast path's flag (which speaks about the decoded
+	// input only) is not enough: success is always vouched for by checkInitialized (finding F10)
+	ensures(imp(err == nil && !o.AllowPartial && o.Merge, specInitVerdict(err)))
 	return
 }
 
